@@ -442,6 +442,30 @@ def run(ctx):
              ctx.construct(hs, extra='store filter'),
              'store query does not translate processing into captured_at '
              'neq/eq None', ctx.loc(hs))
+    # the translation happens exactly when the caller asked for it, and
+    # the store is asked with what is left
+    tr = [x for x in cfg.nodes if x.kind == 'stmt' and
+          isinstance(x.ast, ast.Assign) and
+          isinstance(x.ast.targets[0], ast.Subscript) and
+          norm(x.ast.targets[0].slice) == "'captured_at'"]
+    pops = [n_ for n_, c in cfg.calls(
+        lambda c: U.call_name(c) == 'pop' and c.args and
+        norm(c.args[0]) == "'processing'")]
+    okt = len(tr) == 1 and len(pops) == 1
+    for x in tr + pops:
+        okt = okt and U.guarded(cfg, x, "'processing' in filters", True) \
+            and U.only_guards(cfg, x, [('filters', True),
+                                       ("'processing' in filters", True)])
+    cnt = [n_ for n_, c in cfg.calls(
+        lambda c: U.call_name(c) == 'get_scheduled_jobs_count')]
+    okt = okt and len(cnt) == 1 and not [
+        (a, t_) for a, t_ in U.guard_atoms(cfg, cnt[0])] and \
+        all(cfg.reach([x], stop=()) and cnt[0] in cfg.reach([x])
+            for x in tr)
+    r7.check(okt, ctx.construct(hs, extra='translated when asked for'),
+             'the processing filter is not turned into the captured_at '
+             'criterion exactly when the caller passed it (or the store is '
+             'not asked unconditionally afterwards)', ctx.loc(hs))
 
 
 def guarded_fields(ctx, rule):
